@@ -204,6 +204,9 @@ func c20Mode(o *cli.Opts, run *evid.Run, bin, mode, variant string) {
 		do(99, rq)
 		run.Add("slow_requests", 1)
 	}()
+	for hi, valid := range []bool{true, false} {
+		do(98, hugeRequest(gen.RNG(o.Seed, fmt.Sprintf("%s/huge/%d", key, hi)), ks, valid))
+	}
 	phase("sequential", 1, o.Pick(40, 400))
 	phase("concurrent8", 8, o.Pick(14, 200))
 	phase("concurrent16", 16, o.Pick(10, 200))
